@@ -4,6 +4,11 @@ The real gating routines run on symbolic states and symbolic (non-unitary, compl
 every mode x target tuple; the dense result is compared with an independent reference:
 (G embedded on the target sites in the given order) @ (dense state).  Modes that split
 (SVD / QR) go through LAPACK contract stubs and are decided by certificates.
+
+Gate OBJECTS (arrays, Tensors, operator networks) are additionally followed through call
+histories: untouched after every call, same effect when used again (fresh and stacked).
+Simple-update gating (gate_simple) is checked on the physical state = tensors with the
+(symbolic, positive) bond gauges re-absorbed.
 """
 import itertools
 
@@ -24,12 +29,36 @@ META = {
     "bounds": {
         "quick": {"geometries": "MPS L=3 (open, cyclic), 4-node graph state, 2x2 PEPS (D=1), MPO L=3",
                   "phys dims": "2 (one mixed (2,3,2) case)", "gates": "1-, 2-, 3-site, symbolic complex, matrix and tensor form",
-                  "targets": "every ordered tuple incl. reversed / non-adjacent", "modes": "all accepted by the geometry"},
-        "thorough": {"geometries": "adds MPS L=4, PEPS D=2", "phys dims": "adds d=3"},
+                  "targets": "every ordered tuple incl. reversed / non-adjacent", "modes": "all accepted by the geometry",
+                  "Tensor.gate": "every axis of a rank-3 tensor with dims (2,3,4) and (2,2,2) x preserve_inds x transpose x inplace x "
+                                 "square / wide / tall G",
+                  "operator networks": "upper / lower / sandwich x contract False / True x plain, dagger AND transpose",
+                  "gate objects": "gate_inds_with_tn(_) with one gate Tensor (1-, 2-site) / 2-tensor TensorNetwork: every first target x "
+                                  "every second target (fresh state and stacked), object untouched after every call; "
+                                  "gate_with_op_lazy(_), gate_with_submpo(_)(method='lazy') with a 2- / 3-site operator network on an MPS "
+                                  "L=3, gate_upper_/lower_/sandwich_with_op_lazy(_) on an MPO L=2: both flag values, fresh + stacked "
+                                  "second use (sandwich: fresh only), operator untouched; one gate ARRAY applied twice (every ordered "
+                                  "pair of target pairs on MPS L=3, 4 pairs on the graph), array untouched after every gating call of the "
+                                  "lazy / eager / split / MPS-mode obligations",
+                  "simple update": "gate_simple(_) with symbolic positive gauges on every bond (D=2): one-site gates on every site of a "
+                                   "3-chain and of the 4-node ring+chord graph and of an MPO L=2 (sandwich), plain / transpose / dagger, "
+                                   "site bare or 1-tuple; nearest-neighbour two-site gates on the 3-chain (all 4 ordered pairs) and on a "
+                                   "3-leaf star hub (3 pairs), renorm=False with smudge=0.0 (exact value) and renorm=True (value up to "
+                                   "the reported scale, unit-norm gauge); non-adjacent pairs: label / tag / gauge-store plumbing "
+                                   "symbolically, value by a NUMERIC-ONLY supplement (3 random points)"},
+        "thorough": {"geometries": "adds MPS L=4, PEPS D=2", "phys dims": "adds d=3",
+                     "simple update": "adds the default smudge=1e-12 for nearest-neighbour pairs; symbolic value goal for two non-adjacent "
+                                      "pairs (not mandatory: no verdict from the certificate search so far)"},
     },
-    "outside": ["truncating calls (cutoff=0, no bond cap)", "simple-update gauges beyond value preservation", "parametrised (PTensor) gates",
-                "block-sparse / fermionic arrays", "3D lattices"],
-    "assumptions": ["LAPACK contracts (stubs) for split modes; real entries there (complex entries in stub-free modes)"],
+    "outside": ["truncating calls (cutoff=0, no bond cap)", "parametrised (PTensor) gates",
+                "block-sparse / fermionic arrays", "3D lattices",
+                "simple-update gates: power != 1, symbolic proof of the value identity for longer-range (path-routed) gates, "
+                "two-site gate_simple on operator networks and on 2D lattices, optimality / ordering of the new gauges",
+                "inplace_op=True / inplace_mpo=True (documented to consume the operator)", "gate_with_mpo / gate_with_submpo with a "
+                "compressing method: re-use of the operator object (value covered by gate_mps_modes in the thorough tier)",
+                "gate_inds_with_tn with target labels absent from the network (propagator construction)"],
+    "assumptions": ["LAPACK contracts (stubs) for split modes; real entries there (complex entries in stub-free modes)",
+                    "simple-update gauges strictly positive; singular values met by gate_simple strictly positive (generic rank)"],
 }
 
 
@@ -655,18 +684,22 @@ def _gs_adjacent(geom, w):
 
 
 # nearest-neighbour pairs with smudge=0.0 decide in seconds (quick); the default smudge (1e-12 * max(g): one more defined
-# inverse per outer bond) costs ~10x and the longer-range route chains 3 SVDs + 2 QRs (certificate search in minutes or
-# not at all): thorough tier, not mandatory - like the chained MPS modes of gate_mps_modes
-_P_GS2 = [{"geom": g, "where": w, "opt": o, "smudge": sm,
-           "_tiers": ("quick", "thorough") if (_gs_adjacent(g, w) and sm == 0.0) else ("thorough",),
-           "_mandatory": _gs_adjacent(g, w)}
-          for g, ws in (("chain", _wheres(3, 2)),)
-          for w in ws for o in _GS_OPTS for sm in (0.0, "default")
-          if not (sm == "default" and not _gs_adjacent(g, w))]
+# inverse per outer bond) costs ~10x: thorough tier.  The longer-range route chains 3 SVDs + 2 QRs: its value identity is
+# beyond the present certificate search (no verdict within 400 s) - two representatives are kept in the thorough tier,
+# not mandatory, like the chained MPS modes of gate_mps_modes; quick tier: gate_simple_long_range_plumbing
+_P_GS2 = ([{"geom": "chain", "where": w, "opt": o, "smudge": sm, "inplace": True,
+            "_tiers": ("quick", "thorough") if sm == 0.0 else ("thorough",)}
+           for w in _wheres(3, 2) if _gs_adjacent("chain", w) for o in _GS_OPTS for sm in (0.0, "default")]
+          + [{"geom": "chain", "where": w, "opt": o, "smudge": 0.0, "inplace": False}
+             for w in ((0, 1), (2, 1)) for o in _GS_OPTS]
+          + [{"geom": "star", "where": w, "opt": o, "smudge": 0.0, "inplace": True}        # hub with three gauged bonds
+             for w, o in (((1, 3), "plain"), ((3, 1), "transpose"), ((0, 1), "dagger"))]
+          + [{"geom": "chain", "where": w, "opt": o, "smudge": 0.0, "inplace": True, "_tiers": ("thorough",), "_mandatory": False}
+             for w, o in (((0, 2), "plain"), ((2, 0), "transpose"))])
 
 
 @obligation(PROP, params=_P_GS2, rounds=2, timeout_s=400, wall_s=300, max_rows=80000)
-def gate_simple_two_site(mk, geom, where, opt, smudge):
+def gate_simple_two_site(mk, geom, where, opt, smudge, inplace):
     """gate_simple_ with a TWO-site gate on a gauged state (symbolic positive gauge on every bond): nearest-neighbour
     pairs (reduced split of the gauged pair) and longer-range pairs (gate routed along the connecting path), both site
     orders, plain / transpose / dagger, no truncation, renorm=False: the physical state (NEW gauges re-absorbed) equals
@@ -684,10 +717,14 @@ def gate_simple_two_site(mk, geom, where, opt, smudge):
     kw = dict(_GS_OPTS[opt])
     if smudge != "default":
         kw["smudge"] = smudge
-    out = psi.gate_simple_(G, where, gauges, cutoff=0.0, renorm=False, **kw)
-    lab = f"gate_simple_({opt}) where={where}"
+    raw_before = dense_vec(psi, sinds)
+    out = (psi.gate_simple_ if inplace else psi.gate_simple)(G, where, gauges, cutoff=0.0, renorm=False, **kw)
+    lab = f"gate_simple{'_' if inplace else ''}({opt}) where={where}"
     mk.same(f"{lab}: tensors keep their site tags only (no temporary tags left)", [set(t.tags) for t in out], [{f"I{i}"} for i in range(n)])
-    mk.same(f"{lab}: returns the receiver", out is psi, True)
+    if not inplace:
+        mk.same(f"{lab}: receiver labels untouched", [tuple(t.inds) for t in psi], [tuple(t.inds) for t in out])
+        mk.eq(f"{lab}: receiver value untouched (only the gauge store is updated in place, as documented)", dense_vec(psi, sinds), raw_before)
+    mk.same(f"{lab}: inplace returns the receiver / otherwise a new network", out is psi, inplace)
     mk.same(f"{lab}: outer labels unchanged", set(out.outer_inds()), set(sinds))
     mk.same(f"{lab}: same bonds, each with a gauge of the bond's size", {k: tuple(np.shape(v)) for k, v in gauges.items()},
             {k: (out.ind_size(k),) for k in g0})
@@ -695,9 +732,12 @@ def gate_simple_two_site(mk, geom, where, opt, smudge):
     mk.eq(f"{lab}: physical state == (G on {where}) @ physical state", physical_dense(out, gauges, sinds).reshape(-1), want)
     mk.same(f"{lab}: one tensor per site, site tags kept", (out.num_tensors, all(out.site_tag(i) in out.tag_map for i in range(n))), (n, True))
     mk.eq(f"{lab}: G not modified", G, G0)
-    path_bonds = {f"b{min(e)}{max(e)}" for e in edges if min(e) >= min(where) and max(e) <= max(where)} if geom == "chain" else None
+    if _gs_adjacent(geom, where):
+        touched = {f"b{min(where)}{max(where)}"}
+    else:       # chain: the bonds between the two sites
+        touched = {f"b{min(e)}{max(e)}" for e in edges if min(e) >= min(where) and max(e) <= max(where)}
     for k in g0:
-        if path_bonds is not None and k not in path_bonds:
+        if k not in touched:
             mk.eq(f"{lab}: gauge on {k} (away from the gate) unchanged", gauges[k], g0[k])
 
 
